@@ -21,6 +21,8 @@
     flayers <functor> <expr>    the layer-by-layer composite (reference semantics of C09)
     fbox <functor> <box>        `self(box)` on a single box
     fty <functor> <ty>          `self(ty)`
+    fgenuine <expr>             1 iff every Swap/Cup/Cap box of the diagram is genuine (hypothesis
+                                of the C09 theorem; WF is guaranteed by C01's `mk?` theorem)
       functor := <n> (name nats)ⁿ <m> (box arrspec)ᵐ     arrspec := A data | S nin nout nats
       expr    := the core expression language (Driver/Codec.lean)
 -/
@@ -177,6 +179,10 @@ def handle (cmd : String) (rest : List String) : Option String :=
       fun (f, e) => onDiagram e f.call
   | "flayers" => some <| run (do let f ← functor; let e ← expr; pure (f, e)) rest
       fun (f, e) => onDiagram e f.layerwise
+  | "fgenuine" => some <| run expr rest fun e =>
+      match e.eval with
+      | .error er => "err " ++ toString er
+      | .ok d => if d.boxes.all TFunctor.genuineB then "ok 1" else "ok 0"
   | "fbox" => some <| run (do let f ← functor; let b ← box; pure (f, b)) rest
       fun (f, b) => pTResult (f.box b)
   | "fty" => some <| run (do let f ← functor; let t ← ty; pure (f, t)) rest
